@@ -28,14 +28,68 @@ pub struct PipeEnd {
     label: String,
     /// explored transport behaviour: deliver at most this many bytes per read (0 = as much as fits)
     read_limit: usize,
+    /// transit time on the virtual clock: bytes that arrive while the reader waits are handed over this
+    /// much later (bytes already waiting when the reader comes back are handed over at once)
+    latency_ms: u64,
 }
 
 struct LimitedRead<R> {
     inner: R,
     limit: usize,
+    latency_ms: u64,
+    /// the reader was waiting for data (so what comes next is fresh off the wire)
+    idle: bool,
+    in_transit: Option<(Vec<u8>, Pin<Box<dyn std::future::Future<Output = ()> + Send>>)>,
 }
 impl<R: AsyncRead + Unpin> AsyncRead for LimitedRead<R> {
     fn poll_read(mut self: Pin<&mut Self>, cx: &mut Context<'_>, buf: &mut ReadBuf<'_>) -> Poll<std::io::Result<()>> {
+        if self.latency_ms > 0 {
+            let this = &mut *self;
+            if let Some((bytes, timer)) = this.in_transit.as_mut() {
+                if timer.as_mut().poll(cx).is_pending() {
+                    return Poll::Pending;
+                }
+                let n = bytes.len().min(buf.remaining());
+                buf.put_slice(&bytes[..n]);
+                bytes.drain(..n);
+                if bytes.is_empty() {
+                    this.in_transit = None;
+                } else {
+                    // the rest is there already
+                    let rest = std::mem::take(bytes);
+                    this.in_transit = Some((rest, Box::pin(async {})));
+                }
+                this.idle = false;
+                return Poll::Ready(Ok(()));
+            }
+            if this.idle {
+                let want = if this.limit == 0 { buf.remaining() } else { buf.remaining().min(this.limit) };
+                let mut tmp = vec![0u8; want];
+                let mut rb = ReadBuf::new(&mut tmp);
+                return match Pin::new(&mut this.inner).poll_read(cx, &mut rb) {
+                    Poll::Pending => Poll::Pending,
+                    Poll::Ready(Err(e)) => Poll::Ready(Err(e)),
+                    Poll::Ready(Ok(())) => {
+                        let got = rb.filled().to_vec();
+                        if got.is_empty() {
+                            return Poll::Ready(Ok(())); // end of stream
+                        }
+                        let mut timer: Pin<Box<dyn std::future::Future<Output = ()> + Send>> = Box::pin(vsched::sleep(Duration::from_millis(this.latency_ms)));
+                        let _ = timer.as_mut().poll(cx);
+                        this.in_transit = Some((got, timer));
+                        Poll::Pending
+                    }
+                };
+            }
+        }
+        let r = self.as_mut().poll_read_now(cx, buf);
+        // nothing buffered any more: whatever arrives next is fresh off the wire
+        self.idle = r.is_pending();
+        r
+    }
+}
+impl<R: AsyncRead + Unpin> LimitedRead<R> {
+    fn poll_read_now(mut self: Pin<&mut Self>, cx: &mut Context<'_>, buf: &mut ReadBuf<'_>) -> Poll<std::io::Result<()>> {
         if self.limit == 0 || buf.remaining() <= self.limit {
             return Pin::new(&mut self.inner).poll_read(cx, buf);
         }
@@ -56,8 +110,9 @@ impl<R: AsyncRead + Unpin> AsyncRead for LimitedRead<R> {
 impl ClusterBidiStream for PipeEnd {
     fn split(self: Box<Self>) -> (BoxRead, BoxWrite) {
         let limit = self.read_limit;
+        let latency_ms = self.latency_ms;
         let (r, w) = tokio::io::split(self.stream);
-        (Box::new(LimitedRead { inner: r, limit }), Box::new(w))
+        (Box::new(LimitedRead { inner: r, limit, latency_ms, idle: true, in_transit: None }), Box::new(w))
     }
     fn peer_label(&self) -> Option<String> {
         Some(self.label.clone())
@@ -68,10 +123,14 @@ impl ClusterBidiStream for PipeEnd {
 }
 
 pub fn pipe(label: &str, read_limit: usize) -> (PipeEnd, PipeEnd) {
+    slow_pipe(label, read_limit, 0)
+}
+
+pub fn slow_pipe(label: &str, read_limit: usize, latency_ms: u64) -> (PipeEnd, PipeEnd) {
     let (a, b) = tokio::io::duplex(1 << 16);
     (
-        PipeEnd { stream: a, label: label.to_string(), read_limit },
-        PipeEnd { stream: b, label: label.to_string(), read_limit },
+        PipeEnd { stream: a, label: label.to_string(), read_limit, latency_ms },
+        PipeEnd { stream: b, label: label.to_string(), read_limit, latency_ms },
     )
 }
 
@@ -148,7 +207,8 @@ impl Actor for Probe {
                 self.log.lock().unwrap().push(format!("{}:ask {n}", self.tag));
                 if self.reply_delay_ms > 0 && n % 2 == 0 {
                     // even requests are answered later, from a task: replies leave out of request order
-                    let d = self.reply_delay_ms;
+                    // (the delay grows with the last digit: 0 -> d, 2 -> 2d, 4 -> 3d, ...)
+                    let d = self.reply_delay_ms * (1 + (n as u64 % 10) / 2);
                     ractor::concurrency::spawn(async move {
                         ractor::concurrency::sleep(Duration::from_millis(d)).await;
                         let _ = reply.send(n + 1000);
@@ -658,14 +718,34 @@ pub enum Dials {
     ThreeMixed,
     SingleThenSpoof,
     SimultaneousThenSpoof,
+    /// a connection that only claims the peer's name (and never answers the challenge) is already there
+    /// when the honest link is dialled: outgoing / incoming honest link, small / legacy (0) connection id
+    SquatterDialOut,
+    SquatterDialIn,
+    SquatterLegacyDialOut,
+    SquatterLegacyDialIn,
 }
 
 fn c18_body(d: Dials) -> vsched::Body {
     with_rt(move || async move {
         let t = two_nodes().await;
         let mut bad = Vec::new();
+        let mut squatter = None;
+        if matches!(d, Dials::SquatterDialOut | Dials::SquatterDialIn | Dials::SquatterLegacyDialOut | Dials::SquatterLegacyDialIn) {
+            let (node_end, mine) = pipe("pipe-spoof", 0);
+            let _ = t.a.server.cast(NodeServerMessage::ConnectionOpenedExternal { stream: Box::new(node_end), is_server: true });
+            let mut peer = ScriptedPeer::new(mine.stream);
+            let connection_id = if matches!(d, Dials::SquatterLegacyDialOut | Dials::SquatterLegacyDialIn) { 0 } else { 1 };
+            let _ = peer
+                .send(&auth_msg(pa::authentication_message::Msg::Name(pa::NameMessage { name: "b@host".into(), flags: Some(pa::NodeFlags { version: 1 }), connection_string: "elsewhere:9".into(), connection_id })))
+                .await;
+            vsched::quiesce_time();
+            squatter = Some(peer);
+        }
         vsched::explore_schedules(true);
         match d {
+            Dials::SquatterDialOut | Dials::SquatterLegacyDialOut => dial(&t.a, &t.b, "pipe-ab", 0),
+            Dials::SquatterDialIn | Dials::SquatterLegacyDialIn => dial(&t.b, &t.a, "pipe-ba", 0),
             Dials::Simultaneous | Dials::SimultaneousThenSpoof => {
                 dial(&t.a, &t.b, "pipe-ab", 0);
                 dial(&t.b, &t.a, "pipe-ba", 0);
@@ -683,8 +763,14 @@ fn c18_body(d: Dials) -> vsched::Body {
         }
         vsched::quiesce_time();
         vsched::explore_schedules(false);
-        let sa = sessions(&t.a).await;
+        let mut sa = sessions(&t.a).await;
         let sb = sessions(&t.b).await;
+        if squatter.is_some() {
+            // the stalled connection itself may stay listed; it must never count as the peer's session
+            if sa.iter().any(|s| s.0 == "pipe-spoof" && s.2.get_status() == ActorStatus::Running) {
+                sa.retain(|s| s.0 != "pipe-spoof");
+            }
+        }
         let describe = |s: &Vec<(String, Option<String>, ActorRef<NodeSessionMessage>)>| s.iter().map(|x| format!("{}->{:?}", x.0, x.1)).collect::<Vec<_>>();
         if sa.len() != 1 || sb.len() != 1 {
             bad.push(format!("each node must keep exactly one session for its peer: a lists {:?}, b lists {:?}", describe(&sa), describe(&sb)));
@@ -722,6 +808,13 @@ fn c18_body(d: Dials) -> vsched::Body {
                     bad.push(format!("node {n} reported the same session ready twice: {ev:?}"));
                 }
             }
+        }
+        if let Some(mut peer) = squatter {
+            if ev.iter().any(|e| e.contains("authenticated pipe-spoof") || e.contains("ready pipe-spoof")) {
+                bad.push(format!("a connection that never answered the challenge was reported authenticated: {ev:?}"));
+            }
+            peer.close().await;
+            vsched::quiesce();
         }
         let mut spoof_note = String::new();
         if matches!(d, Dials::SingleThenSpoof | Dials::SimultaneousThenSpoof) && bad.is_empty() {
@@ -763,7 +856,17 @@ fn c18_body(d: Dials) -> vsched::Body {
 pub fn c18_units(thorough: bool) -> Vec<Unit> {
     let cfg = cluster_cfg();
     let mut v = Vec::new();
-    for d in [Dials::Simultaneous, Dials::TwiceSameDirection, Dials::ThreeMixed, Dials::SingleThenSpoof, Dials::SimultaneousThenSpoof] {
+    for d in [
+        Dials::Simultaneous,
+        Dials::TwiceSameDirection,
+        Dials::ThreeMixed,
+        Dials::SingleThenSpoof,
+        Dials::SimultaneousThenSpoof,
+        Dials::SquatterDialOut,
+        Dials::SquatterDialIn,
+        Dials::SquatterLegacyDialOut,
+        Dials::SquatterLegacyDialIn,
+    ] {
         for seed in if thorough { vec![1u64, 2, 3] } else { vec![1u64] } {
             let mut c = cfg.clone();
             c.hash_seed = seed;
@@ -875,6 +978,25 @@ fn c20_body(read_limit: usize, ending: Ending, abandon: bool) -> vsched::Body {
         if asks != 3 {
             bad.push(format!("the real actor handled {asks} of 3 calls: {l:?}"));
         }
+        if abandon {
+            // a call is abandoned while nothing else is outstanding on this reference and the real actor
+            // has not answered it yet; the next caller must get its own answer, not the abandoned one's
+            vsched::explore_schedules(true);
+            let gone = proxy_ref.call(|reply| Wire::Ask(202, reply), Some(Duration::from_millis(200)));
+            let _ = vsched::poll_then_drop(gone, 1).await;
+            let mine = proxy_ref.call(|reply| Wire::Ask(206, reply), Some(Duration::from_millis(200))).await;
+            match mine {
+                Ok(ractor::rpc::CallResult::Success(1206)) => {}
+                Ok(ractor::rpc::CallResult::Success(v)) => bad.push(format!("a call made after another caller abandoned its call received the reply {v}, which belongs to the abandoned call (expected 1206)")),
+                other => bad.push(format!("a call made after another caller abandoned its call ended as {:?}", other.as_ref().map(|c| format!("{c:?}")).map_err(|_| "send error"))),
+            }
+            vsched::quiesce_time();
+            vsched::explore_schedules(false);
+            let l = plog.lock().unwrap().clone();
+            if l.iter().filter(|e| e.starts_with("P:ask")).count() != 5 {
+                bad.push(format!("the real actor did not handle the abandoned and the following call: {l:?}"));
+            }
+        }
         // group membership mirrors the original
         ractor::pg::leave("pub".into(), vec![p.get_cell()]);
         vsched::quiesce_time();
@@ -922,6 +1044,64 @@ fn c20_body(read_limit: usize, ending: Ending, abandon: bool) -> vsched::Body {
     })
 }
 
+/// A call times out at the caller while the request is still under way / the real actor still thinks
+/// (transit takes time, so the peer's deadline ends later than the caller's); the next caller on the same
+/// remote reference must get its own answer, not the late answer to the abandoned call.
+fn c20_late_body(latency_ms: u64, think_ms: u64, pause_ms: u64) -> vsched::Body {
+    with_rt(move || async move {
+        let t = two_nodes().await;
+        let plog: L = Arc::new(Mutex::new(vec![]));
+        // even requests ending in 6 are answered after 4 x reply_delay_ms
+        let (p, ph) = Actor::spawn(Some("P".into()), Probe { log: plog.clone(), tag: "P", reply_delay_ms: think_ms / 4 }, ()).await.expect("P");
+        ractor::pg::join("pub".into(), vec![p.get_cell()]);
+        let (x, y) = slow_pipe("pipe-ab", 0, latency_ms);
+        let _ = t.a.server.cast(NodeServerMessage::ConnectionOpenedExternal { stream: Box::new(x), is_server: false });
+        let _ = t.b.server.cast(NodeServerMessage::ConnectionOpenedExternal { stream: Box::new(y), is_server: true });
+        vsched::quiesce_time();
+        let mut bad = Vec::new();
+        let Some(proxy) = remote_ref_of(p.get_id(), "pub") else {
+            bad.push(format!("no remote reference for the advertised actor over the slow link: {:?}", t.events.lock().unwrap()));
+            for n in [t.a, t.b] {
+                n.server.stop(None);
+                let _ = n.handle.await;
+            }
+            p.stop(None);
+            let _ = ph.await;
+            return Outcome { key: "no-proxy".into(), violations: bad };
+        };
+        let proxy_ref: ActorRef<Wire> = proxy.clone().into();
+        vsched::explore_schedules(true);
+        let first = proxy_ref.call(|reply| Wire::Ask(206, reply), Some(Duration::from_millis(100))).await;
+        match &first {
+            // (the reply converter's own timer may fire first: the caller then sees its port dropped)
+            Ok(ractor::rpc::CallResult::Timeout) | Ok(ractor::rpc::CallResult::SenderError) => {}
+            Ok(ractor::rpc::CallResult::Success(1206)) => {}
+            other => bad.push(format!("the slow call ended as {:?}", other.as_ref().map(|c| format!("{c:?}")).map_err(|_| "send error"))),
+        }
+        vsched::sleep(Duration::from_millis(pause_ms)).await;
+        let second = proxy_ref.call(|reply| Wire::Ask(301, reply), Some(Duration::from_millis(150))).await;
+        match &second {
+            Ok(ractor::rpc::CallResult::Success(1301)) => {}
+            Ok(ractor::rpc::CallResult::Success(v)) => bad.push(format!("the second caller received {v}: the late answer to the first, timed-out call (expected 1301)")),
+            other => bad.push(format!("the second call ended as {:?} (expected its own answer 1301)", other.as_ref().map(|c| format!("{c:?}")).map_err(|_| "send error"))),
+        }
+        vsched::quiesce_time();
+        vsched::explore_schedules(false);
+        let l = plog.lock().unwrap().clone();
+        if l != vec!["P:ask 206".to_string(), "P:ask 301".to_string()] {
+            bad.push(format!("the real actor handled {l:?}"));
+        }
+        let key = format!("first={:?} second={:?}", first.as_ref().map(|c| format!("{c:?}")).map_err(|_| ()), second.as_ref().map(|c| format!("{c:?}")).map_err(|_| ()));
+        for n in [t.a, t.b] {
+            n.server.stop(None);
+            let _ = n.handle.await;
+        }
+        p.stop(None);
+        let _ = ph.await;
+        Outcome { key, violations: bad }
+    })
+}
+
 pub fn c20_units(thorough: bool) -> Vec<Unit> {
     let cfg = cluster_cfg();
     let mut v = Vec::new();
@@ -937,6 +1117,22 @@ pub fn c20_units(thorough: bool) -> Vec<Unit> {
                 }
             }
         }
+    }
+    // timed-out calls with transit time: (latency, think time of the real actor, pause before the next call)
+    let mut late = vec![(30u64, 80u64, 5u64), (30, 80, 30), (20, 60, 5), (10, 120, 5)];
+    if thorough {
+        for lat in [5u64, 15, 25, 35, 45] {
+            for think in [40u64, 60, 80, 100] {
+                for pause in [1u64, 10, 20, 40] {
+                    if !late.contains(&(lat, think, pause)) {
+                        late.push((lat, think, pause));
+                    }
+                }
+            }
+        }
+    }
+    for (lat, think, pause) in late {
+        v.push(Unit::explore_split(Job::new(format!("remote-late/lat{lat}/think{think}/pause{pause}"), cfg.clone(), Some(if thorough { 2 } else { 1 }), c20_late_body(lat, think, pause)), 4));
     }
     v
 }
